@@ -39,6 +39,12 @@ type c10Case struct {
 	// attributes are added (xmlns:ID, xmlns:InResponseTo, xmlns:Destination, xmlns:Version on
 	// the root, xmlns:Value on StatusCode); an exclusive-c14n signature does not cover them
 	Shadow bool `json:"xmlns_shadow,omitempty"`
+	// XmlAttr k>0 (written by the sender before it signs): beside the SAML attribute that makes
+	// the message faulty there is an attribute of the same local name in another namespace that
+	// holds the value the check wants - with the reserved, never declared xml: prefix (k odd) or a
+	// declared prefix (k even); 1,2 StatusCode Value, 3,4 Destination, 5,6 Version. The SAML
+	// attribute is the unqualified one
+	XmlAttr int `json:"same_name_attribute_in_another_namespace,omitempty"`
 }
 
 func c10Spec(c c10Case) idp.LogoutSpec {
@@ -123,6 +129,38 @@ func c10Render(c c10Case) (enc string, genuineID string) {
 		x = x[:gt] + ` xmlns:ID="_evil-logout" xmlns:InResponseTo="_evil-req" xmlns:Destination="` + world.SPSLO + `" xmlns:Version="2.0"` + x[gt:]
 		x = regexp.MustCompile(`(<samlp:StatusCode[^>]*?)(/?>)`).ReplaceAllString(x, `${1} xmlns:Value="urn:oasis:names:tc:SAML:2.0:status:Success"${2}`)
 		return idp.Encode([]byte(x), c.Deflate), ""
+	}
+	if c.Sign < 5 && c.XmlAttr > 0 {
+		l := c10Spec(c)
+		sign := l.Sign
+		l.Sign = idp.SignSpec{}
+		doc := idp.BuildLogout(l)
+		root := doc.Root()
+		prefix := "xml"
+		if c.XmlAttr%2 == 0 {
+			prefix = "q"
+			root.Attr = append([]etree.Attr{{Space: "xmlns", Key: "q", Value: "urn:example:q"}}, root.Attr...)
+		}
+		switch (c.XmlAttr - 1) / 2 {
+		case 0:
+			for _, st := range root.ChildElements() {
+				if st.Tag == "Status" {
+					for _, sc := range st.ChildElements() {
+						if sc.Tag == "StatusCode" {
+							sc.CreateAttr(prefix+":Value", idp.StatusSuccess)
+						}
+					}
+				}
+			}
+		case 1:
+			root.CreateAttr(prefix+":Destination", world.SPSLO)
+		case 2:
+			root.CreateAttr(prefix+":Version", "2.0")
+		}
+		if sign.Signed() {
+			idp.SignInPlace(root, sign)
+		}
+		return idp.Encode(idp.Bytes(doc, idp.Layout{}), c.Deflate), ""
 	}
 	if c.Sign < 5 {
 		if c.FlagAttr {
@@ -655,6 +693,28 @@ func c10Cases() []c10Case {
 			cases = append(cases, c)
 		}
 	})
+	// a same-named attribute in another namespace beside the faulty SAML attribute
+	for _, kind := range []string{"LogoutRequest", "LogoutResponse"} {
+		for xa := 1; xa <= 6; xa++ {
+			if kind == "LogoutRequest" && xa <= 2 {
+				continue
+			}
+			for _, sign := range []int{0, 1} {
+				for _, skip := range []bool{false, true} {
+					c := c10Case{Kind: kind, Sign: sign, SkipSig: skip, XmlAttr: xa}
+					switch (xa - 1) / 2 {
+					case 0:
+						c.Status = 3
+					case 1:
+						c.Dest = 4
+					case 2:
+						c.Version = 1
+					}
+					cases = append(cases, c)
+				}
+			}
+		}
+	}
 	// URL-equivalent near misses of the Destination and of the Issuer
 	for _, kind := range []string{"LogoutRequest", "LogoutResponse"} {
 		for nm := 3; nm <= 9; nm++ {
@@ -672,7 +732,7 @@ func c10Cases() []c10Case {
 }
 
 func c10Run(r *mc.Run) {
-	r.Rule = "full product kind(2) x Version(3) x Destination(7: SLO URL, absent, empty, ACS URL, evil, the SLO URL in another letter case / with a trailing slash; plus 7 spellings a URL library would call the same URL: query, fragment, userinfo, host case, default port, dot segment, percent-encoded letter) x Issuer(5 + the same 7 spellings, incl. the issuer in another letter case / with a trailing slash) x Status(6 incl. nested second-level codes, LogoutResponse) x signing state(9: unsigned, K1, K2, untrusted, tampered, 4 wrapping/relocation shapes) x presentation(2) x signature checking(2) x IdP issuer configured(2), unsigned roots also with a self-asserted SignatureValidated attribute; kind-confusion matrix 3x3x2x2; 7 x 5 sequences (a delivery whose decoding fails, then a genuine signed message) through validators and pre-decoders, judged against outcomes taken at process start; 16 rotations (a used instance is given a new certificate store object trusting the other key, with and without a new clock object: the old signer is refused, the new one honoured); ValidateDecoded* on hand-built structs (full field product); non-trivial = the message reached the field checks or the signature logic (all do); distinct = distinct case"
+	r.Rule = "full product kind(2) x Version(3) x Destination(7: SLO URL, absent, empty, ACS URL, evil, the SLO URL in another letter case / with a trailing slash; plus 7 spellings a URL library would call the same URL: query, fragment, userinfo, host case, default port, dot segment, percent-encoded letter) x Issuer(5 + the same 7 spellings, incl. the issuer in another letter case / with a trailing slash) x Status(6 incl. nested second-level codes, LogoutResponse) x signing state(9: unsigned, K1, K2, untrusted, tampered, 4 wrapping/relocation shapes) x presentation(2) x signature checking(2) x IdP issuer configured(2), unsigned roots also with a self-asserted SignatureValidated attribute; kind-confusion matrix 3x3x2x2; 7 x 5 sequences (a delivery whose decoding fails, then a genuine signed message) through validators and pre-decoders, judged against outcomes taken at process start; a faulty Version / Destination / StatusCode Value beside an attribute of the same local name in another namespace (xml: or a declared prefix) that holds the wanted value, written before signing; 16 rotations (a used instance is given a new certificate store object trusting the other key, with and without a new clock object: the old signer is refused, the new one honoured); ValidateDecoded* on hand-built structs (full field product); non-trivial = the message reached the field checks or the signature logic (all do); distinct = distinct case"
 	r.Assume("RSA unforgeable", "goxmldsig canonicalisers used by the harness signer")
 	// sequences: references first, while the process has decoded nothing else; the sequences
 	// themselves run at the very end, one after the other
